@@ -42,11 +42,28 @@ Theorem c12_quake_unit : forall port v, one_receive (get_data_impl port v).
 Proof. exact quake_one_receive. Qed.
 Print Assumptions c12_quake_unit.
 
+(* ... and so are the retried units of Valve (one request), GameSpy 1 / 2 / 3 and JC2-MP (the whole exchange), Minecraft
+   Bedrock and Unreal 2 (one request) *)
+From GD Require Import Model.Valve Model.Gamespy Model.Games Model.Minecraft Proofs.TimeoutUnits.
+Theorem c12_other_units :
+  (forall bz port e protocol kind payload, one_receive (get_request_data_impl bz port e protocol kind payload))
+  /\ (forall port, one_receive (gs1_values_impl port))
+  /\ (forall port, one_receive (gs2_request_impl port))
+  /\ (forall port, one_receive (gs3_packets_impl port))
+  /\ (forall port, one_receive (jc2m_packets_impl port))
+  /\ (forall port, one_receive (bedrock_info_impl port))
+  /\ (forall port kind, one_receive (do* _ := send port (u2_request kind) in udp_recv (Some u2_packet_size))).
+Proof.
+  exact (conj valve_one_receive (conj gs1_one_receive (conj gs2_one_receive (conj gs3_one_receive (conj jc2m_one_receive
+        (conj bedrock_one_receive unreal2_one_receive)))))).
+Qed.
+Print Assumptions c12_other_units.
+
 (* a Valve server that answers every request with a challenge and the challenged request with nothing: one attempt is
    request, challenge, challenged request, silence - two receives, one of them waiting for the read timeout -, and with
    r retries the unit makes exactly r + 1 such attempts (2 (r + 1) receives), fails with a timeout-class error and
    leaves the rest of the script alone: the wait is (r + 1) x read timeout, not (r + 1)^2 *)
-From GD Require Import Model.Valve Proofs.ValveChallengeSilent.
+From GD Require Import Proofs.ValveChallengeSilent.
 Theorem c12_valve_challenged_then_silent : forall bz port retries e protocol kind (cs : list (N * N * N * N)) (u : list udp_event) t sn cur tr,
   length cs = S (N.to_nat retries) ->
   exists err sn' tr',
